@@ -98,16 +98,9 @@ def model_xml(decl, ctx, e):
     return xml
 
 
-def check(run):
-    thorough = run.tier == 'thorough'
-    rng = run.rng
-    pr = run.proofs()
-    drv, err = vlib.build_extract('effects', 'Extract_Effects.v', 'drv_effects') if os.path.exists(os.path.join(vlib.COQ, 'theories', 'EffectsProofs.vo')) else (None, 'EffectsProofs.vo missing')
-    if drv is None:
-        run.tie_broken('extraction of the effects model', err)
-        return run.finish('proof')
+def compare_summaries(run, drv, rng, nprog, what):
+    """random programs: the sets the type checker stores per function vs the extracted summaries; what in ('changes', 'depends')"""
     # ---- (1) function summaries: model vs function_t::changes / depends on random programs ---------------------------
-    nprog = 400 if thorough else 80
     progs = [G.RandProg(rng, rng.randrange(2, 7)) for _ in range(nprog)]
     j = vlib.Job()
     for k, p in enumerate(progs):
@@ -146,10 +139,23 @@ def check(run):
             rd = {x for x in rd if not re.match(r'f\d+$', x) and x != 'K'}     # the callee identifiers themselves are "read" too
             if mc:
                 nwriters += 1
-            if mc != rc or md != rd:
+            if (what == 'changes' and mc != rc) or (what == 'depends' and md != rd):
                 smism.append(dict(function='f%d' % i, program=p.text()[:1500], model_changes=sorted(mc), impl_changes=sorted(rc), model_depends=sorted(md), impl_depends=sorted(rd)))
     if smism:
-        run.tie_broken('function summaries: Effects.v model vs function_t::changes/depends', smism[:4] + [dict(total=len(smism))])
+        run.tie_broken('function summaries: Effects.v model vs function_t::%s' % what, smism[:4] + [dict(total=len(smism))])
+    return nfun, nwriters, nreject
+
+
+
+def check(run):
+    thorough = run.tier == 'thorough'
+    rng = run.rng
+    pr = run.proofs()
+    drv, err = vlib.build_extract('effects', 'Extract_Effects.v', 'drv_effects') if os.path.exists(os.path.join(vlib.COQ, 'theories', 'EffectsProofs.vo')) else (None, 'EffectsProofs.vo missing')
+    if drv is None:
+        run.tie_broken('extraction of the effects model', err)
+        return run.finish('proof')
+    nfun, nwriters, nreject = compare_summaries(run, drv, rng, 400 if thorough else 80, 'changes')
     # ---- (2) every side-effect-free context x every write form and its twin ---------------------------------------------------
     cars, N = carriers()
     cases = []
